@@ -430,11 +430,15 @@ pub struct AppRow {
     /// a second security (buys only: it has no opening position)
     #[serde(default)]
     pub other_security: bool,
+    /// whose row it is: 0 the default affiliate (empty cell), 1 "Spouse", 2 "(R)" (registered), 3 "Spouse (R)".
+    /// Buys only (other affiliates have no opening position). The rate rules do not depend on it.
+    #[serde(default)]
+    pub affiliate: u8,
 }
 
 impl AppRow {
     pub fn usd(trade: &str) -> AppRow {
-        AppRow { trade: trade.to_string(), settle_off: 2, cur: Some("USD".into()), fx: None, commission: false, ccur: None, cfx: None, sell: false, roc: false, zero_price: false, zero_commission: false, other_security: false }
+        AppRow { trade: trade.to_string(), settle_off: 2, cur: Some("USD".into()), fx: None, commission: false, ccur: None, cfx: None, sell: false, roc: false, zero_price: false, zero_commission: false, other_security: false, affiliate: 0 }
     }
 }
 
@@ -532,16 +536,16 @@ pub fn app_csv_from(rows: &[AppRow], first_index: usize, legacy_date: bool) -> S
 }
 
 pub fn app_csv_fmt(rows: &[AppRow], first_index: usize, legacy_date: bool, date_fmt: u8) -> String {
-    let mut s = format!("security,trade date,{},action,shares,amount/share,commission,currency,exchange rate,commission currency,commission exchange rate,memo\n", if legacy_date { "date" } else { "settlement date" });
+    let mut s = format!("security,trade date,{},action,shares,amount/share,commission,currency,exchange rate,commission currency,commission exchange rate,memo,affiliate\n", if legacy_date { "date" } else { "settlement date" });
     if first_index == 0 {
         // an opening CAD position long before any calendar, so that Sell rows never over-sell
-        s.push_str(&format!("FOO,{},{},Buy,1000000,1.00,,,,,,seed\n", fmt_date(ymd(2000, 1, 3), date_fmt), fmt_date(ymd(2000, 1, 5), date_fmt)));
+        s.push_str(&format!("FOO,{},{},Buy,1000000,1.00,,,,,,seed,\n", fmt_date(ymd(2000, 1, 3), date_fmt), fmt_date(ymd(2000, 1, 5), date_fmt)));
     }
     for (i, r) in rows.iter().enumerate() {
         let i = i + first_index;
         let trade = pd(&r.trade);
         s.push_str(&format!(
-            "{},{},{},{},{},{},{},{},{},{},{},{}\n",
+            "{},{},{},{},{},{},{},{},{},{},{},{},{}\n",
             if r.other_security && !r.sell && !r.roc { "BAR" } else { "FOO" },
             fmt_date(trade, date_fmt),
             fmt_date(trade + Duration::days(r.settle_off), date_fmt),
@@ -553,7 +557,8 @@ pub fn app_csv_fmt(rows: &[AppRow], first_index: usize, legacy_date: bool, date_
             r.fx.clone().unwrap_or_default(),
             r.ccur.clone().unwrap_or_default(),
             r.cfx.clone().unwrap_or_default(),
-            i
+            i,
+            if r.sell || r.roc { "" } else { ["", "Spouse", "(R)", "Spouse (R)"][r.affiliate as usize % 4] }
         ));
     }
     s
